@@ -13,9 +13,13 @@ import gen_insp
 sys.path.insert(0, os.path.dirname(os.path.dirname(os.path.abspath(__file__))))
 import insp_obs
 
+import os
 ID = 'C01'
 GEN = [('Gen/Insp_Consts.v', gen_insp.generate), ('Gen/Insp_Code.v', gen_insp.generate_code)]
 EQUIV_FILES = ['Proofs/Insp_Equiv.v']
+# further theorem files are picked up when present (VMDK / VHDX refinement, wrapper verdict)
+THEOREM_FILES = ['Properties/C01.v'] + [f for f in ('Properties/C01_Vmdk.v', 'Properties/C01_Vhdx.v', 'Properties/C01_Wrapper.v')
+                                        if os.path.exists(os.path.join(os.path.dirname(os.path.dirname(os.path.dirname(os.path.abspath(__file__)))), 'coq', f))]
 EXTRACT = 'Extract/Insp_x.v'
 FORMATS = ['raw', 'qcow2', 'vhd', 'vhdx', 'vmdk', 'vdi', 'qed', 'iso', 'gpt', 'luks']
 KI = 1024
@@ -245,6 +249,7 @@ def gen_cases(rng, tier):
                 c = {'op': 'insp', 'fmt': fmt, 'n': n, 'bg': bg, 'p': p, 'sizes': sizes, 'k': lab}
                 if rng.random() < 0.05: c['late'] = rng.choice(['', '00', '4b444d56'])
                 yield c
+    yield from tiny_cases(rng, tier)
     # every format on every other format's valid image (detection runs all inspectors on the same bytes)
     for src in FORMATS:
         n, p, bounds = BUILD[src](rng)
@@ -252,8 +257,62 @@ def gen_cases(rng, tier):
             if fmt != src:
                 yield {'op': 'insp', 'fmt': fmt, 'n': n, 'bg': 'z', 'p': p, 'sizes': [rng.choice([512, 4096, 65536])] * (n // 65536 + 2 if n > 65536 else 3), 'k': 'cross:' + src}
 
+# ------------------------------------------------------------------ exhaustive small scope on the real engine classes
+def tiny_class():
+    m = insp_obs.fi()
+    class Tiny(m.FileInspector):
+        NAME = 'tiny'
+        def _initialize(self):
+            self.new_region('a', m.CaptureRegion(1, 2))
+            self.new_region('b', m.CaptureRegion(0, 3))
+            self.new_region('tail', m.EndCaptureRegion(2))
+            self.add_safety_check(m.SafetyCheck.null())
+        def post_process(self):
+            if self.region('a').complete and not self.has_region('c'):
+                self.new_region('c', m.CaptureRegion(3 + self.region('a').data[0], 2))
+        @property
+        def format_match(self):
+            return self.region('b').data.startswith(b'\x01')
+    return Tiny
+
+def tiny_run(data, sizes):
+    insp = tiny_class()()
+    obs = insp_obs.observe('tiny', data, sizes, inspector=insp)
+    bad = [nm for nm, r in insp._capture_regions.items() if data[r.offset:r.offset + len(r.data)] != r.data or len(r.data) > r.length]
+    recs, tail = insp_obs.final_record(obs)
+    return ';'.join(recs[-1].split(';')[1:5]) + '|' + tail + ('|!' + ','.join(bad) if bad else '')
+
+def compositions(n):
+    if n == 0:
+        yield []; return
+    for mask in range(1 << (n - 1)):
+        out = []; cur = 1
+        for i in range(n - 1):
+            if mask >> i & 1: out.append(cur); cur = 1
+            else: cur += 1
+        out.append(cur); yield out
+
+def tiny_oracle(c, io):
+    if '|!' in io: return 'tiny engine: retained bytes of %s are not the stream bytes at the region offset' % io.split('|!')[1]
+    ref = tiny_run(bytes(c['data']), [len(c['data'])])
+    if io.split('|')[0] != ref.split('|')[0] or io.split('|#')[-1] != ref.split('|#')[-1]:
+        return 'tiny engine: verdict %s under sizes %r, %s as one chunk' % (io.split('|')[0], c['sizes'], ref.split('|')[0])
+    return None
+
+def tiny_cases(rng, tier):
+    maxlen = 6 if tier == 'quick' else 8
+    for n in range(maxlen + 1):
+        for v in range(1 << n):
+            data = [(v >> i) & 1 for i in range(n)]
+            for sizes in compositions(n):
+                if tier == 'quick' and n == maxlen and rng.random() < 0.5: continue
+                for sz in (sizes, [x for s_ in sizes for x in (0, s_)] if n <= 4 else None):
+                    if sz is None: continue
+                    yield {'op': 'tiny', 'data': data, 'sizes': sz}
+
 # ------------------------------------------------------------------ implementation side
 def impl(c):
+    if c['op'] == 'tiny': return tiny_run(bytes(c['data']), c['sizes'])
     data = data_of(c)
     m = insp_obs.fi()
     insp = m.ALL_FORMATS[c['fmt']]()
@@ -264,6 +323,7 @@ def impl(c):
     return obs + ('|!' + ','.join(bad) if bad else '')
 
 def encode(c):
+    if c['op'] != 'insp': return None
     a = ['insp', c['fmt'], data_of(c), list(c['sizes'])]
     if 'late' in c: a.append(bytes.fromhex(c['late']))
     return a
@@ -288,6 +348,7 @@ def reference(c):
 
 def oracle(c, io):
     if io.startswith('HARNESS-ERROR'): return io
+    if c['op'] == 'tiny': return tiny_oracle(c, io)
     if '|!' in io:
         return 'retained bytes of region(s) %s are not the stream bytes at the region offset' % io.split('|!')[1]
     if 'late' in c or c.get('check') == 'retained': return None
@@ -338,6 +399,7 @@ def zone(c):
     return None
 
 def classify(c, io):
+    if c['op'] != 'insp': return c['op']
     recs, _ = insp_obs.final_record(io.split('|!')[0])
     f = recs[-1 if 'late' not in c else -2].split(';')
     ex = [r.split(';')[0] for r in recs if not r.startswith('-;')]
@@ -346,7 +408,7 @@ def classify(c, io):
                                  f[4].split(':')[0], (':' + ex[0]) if ex else '')
 
 def trivial(c, io):
-    return c['n'] == 0
+    return c.get('n') == 0
 
 def search(rng, budget):
     n = 0
@@ -362,6 +424,11 @@ TRUSTED = ['struct.unpack / bytes slicing / str methods of CPython as modelled i
            'tools/gen/gen_insp.py: positional extraction of literals and struct formats (fail-closed on any change of shape)']
 ASSUMPTIONS = ['region_complete callbacks run in dictionary order in the model (Python iterates a set); at most one region per inspector has a non-trivial callback',
                'logging calls are not modelled (their arguments are: see qcow_feature_loop)']
-LEVEL_TEXT = ('Executable Coq model of the capture engine and all ten inspectors, validated against the implementation after every chunk '
-              '(exception, format_match, complete, virtual_size, safety outcome, position, every region\'s offset/length/retained bytes).')
-LEVEL_NOTE = 'Engine theorems and the refinement of the eight static inspectors: see notes/INSP.md.'
+LEVEL_TEXT = ('Proved for all byte strings and all chunk lists (unbounded): (1) for all ten inspectors, in every reachable state (any chunks, empty chunks, '
+              'after an exception, after finish) every region holds exactly the stream bytes at its offset and never more than its length; (2) for the eight '
+              'inspectors whose regions come from _initialize (raw, qcow2, qed, vhd, vdi, iso, gpt, luks) the whole final state, hence format_match / complete / '
+              'virtual_size / safety and the absence of exceptions, is a function of the concatenated bytes alone (chunking-independent, empty chunks irrelevant); '
+              '(3) region-level capture_slice and end_capture_tail; (4) the py2gal translations of CaptureRegion.capture/complete and EndCaptureRegion.capture equal '
+              'the model.  VMDK and VHDX verdicts are covered by correspondence + the model-free two-chunking oracle only (partial), with the known findings F1-F4 zoned.')
+LEVEL_NOTE = ('Trusted: Coq kernel; generator tools/gen/gen_insp.py (+py2gal); CPython struct/bytes/str semantics as modelled in Base/Insp_Struct.v, Base/Str.v and tied by the '
+              'every-chunk correspondence of all ten inspectors; region_complete callback order (set iteration) modelled as dictionary order. Closed under the global context.')
